@@ -20,7 +20,7 @@ EVIDENCE = dict(
     trusted=["Lean kernel; standard axioms", "the model is purely functional, so immutability holds of it by construction; the "
              "property is about Python aliasing and is decided as a refinement: the implementation's pool must equal the model's "
              "append-only pool after every history, and every entry must keep its creation-time observation"],
-    rule="histories of 30 (quick) / 200 (thorough) public operations over a shared pool: refinements (succeeding and raising), "
+    rule="histories of 30 (quick) / 100 (thorough) public operations over a shared pool: refinements (succeeding and raising), "
          "+ | % ~, validate, represent, make_required, [], iteration, from_native, and mutation of caller-owned lists/dicts that "
          "were passed in earlier; after every step every pool entry is re-observed")
 
@@ -322,8 +322,8 @@ def model_history(ctx, rnd, n):
 def run(ctx):
     runner.prove(ctx, MODULE, THEOREMS, FILES)
     directed_aliasing(ctx)
-    steps = ctx.n(30, 200)
-    for h in range(ctx.n(25, 120)):
+    steps = ctx.n(30, 100)
+    for h in range(ctx.n(25, 80)):
         H = History(ctx)
         g = SchemaGen(ctx.rnd, max_depth=2, customs=False)
         for _ in range(3):
@@ -370,7 +370,7 @@ MANIFEST = dict(
     text="The spec (D42/Model/History.lean) is a fold over public operations on an append-only pool; theorems: a step only appends, "
          "every earlier entry is unchanged after any history, a step's observation depends only on the entries it names. The "
          "implementation is checked to refine it: generated histories are run through both and the pools compared; model-free "
-         "search: after every step of 30/200-step histories every pool entry is re-observed (repr, verdicts on probes, structural "
+         "search: after every step of 30/100-step histories every pool entry is re-observed (repr, verdicts on probes, structural "
          "encoding, generated value under fixed draws) against its creation-time snapshot, arguments are deep-compared before and "
          "after, and caller-owned lists/dicts passed in earlier are mutated.",
     note="The theorem is about the spec; aliasing through objects the harness never mutates (e.g. props.keys handed out to callers) "
